@@ -67,6 +67,9 @@ def main(tier, replay=None):
             elif fl[0] == "T" and fl[2] != "plain":
                 f.write(cl + "\n")
                 n_mon += 1
+            elif fl[0] == "G" and key in impl:
+                f.write(cl + " " + impl[key].split(" ")[2] + "\n")
+                n_mon += 1
             elif fl[0] == "B" and key in impl:
                 f.write(cl + " " + impl[key].split(" ")[2] + "\n")
                 n_mon += 1
@@ -75,7 +78,7 @@ def main(tier, replay=None):
     mon_viol = 0
     def hist_len(key):
         f = case_by_key[key].split(" ")
-        return len(f[-1]) if f[0] in ("H", "T") else len(f[3])
+        return len(f[-1]) if f[0] in ("H", "T", "G") else len(f[3])
     for key, sl in sorted(spec.items(), key=lambda kv: hist_len(kv[0])):
         il = impl.get(key)
         if il is None:
@@ -97,6 +100,15 @@ def main(tier, replay=None):
                         "first difference at position %d (counter %s): implementation %s, property requires %s" % (
                             i, hist[i] if i < len(hist) else "?", got[i:i + 1], want[i:i + 1]),
                         "replay: bin/check C04 quick --replay <file containing the case line>"]))
+        elif key.startswith("G "):
+            if sl.split(" ")[2] != "1":
+                mon_viol += 1
+                if mon_viol <= 3:
+                    c.violation("group-table", "\n".join([
+                        "property C04 fails on the group sender table (a sender's counter accepted twice without 16 other senders in between, "
+                        "or a counter newer than everything accepted from that sender rejected):",
+                        "case (fabric:node:counter ...): " + case_by_key[key],
+                        "implementation accept flags: " + il.split(" ")[2]]))
         else:
             if sl.split(" ")[2] != "1":
                 mon_viol += 1
